@@ -177,7 +177,7 @@ def _check(ctx, mod, replay_shard):
                                     "label": r["label"], "stderr": r["stderr"][-1500:]})
 
     extra = {}
-    if hasattr(mod, "offline") and replay_shard is None:
+    if hasattr(mod, "offline") and (replay_shard is None or getattr(mod, "OFFLINE_IN_REPLAY", False)):
         off = mod.offline(ctx, results) or {}
         viols.extend(off.get("viols", []))
         inconcl.extend(off.get("inconclusive", []))
@@ -188,6 +188,12 @@ def _check(ctx, mod, replay_shard):
             if len(samples) < 10:
                 samples.append(s)
         extra = off.get("extra", {})
+        for v_, pic_ in off.get("per_interp", {}).items():
+            pic = per_interp_counters.setdefault(v_, {})
+            for k, n in pic_.items():
+                pic[k] = pic.get(k, 0) + n
+                counters[k] = counters.get(k, 0) + n
+        worker_problems.extend(off.get("worker_problems", []))
 
     # classify against known findings (by mechanism key computed by the monitor)
     known, fixed = load_known(prop)
